@@ -41,7 +41,8 @@ K_NAMES = [b"alg:iter", b"iterlim", b"maxit", b"alg:mode", b"mode", b"tol:gap", 
            b"lim:3:wt", b"limit_ab_w", b"lim:x:wt", b"wt7", b"wtab"]
 S_NAMES = [b"tech:log", b"logfile", b"log_file"]
 F_NAMES = [b"tech:quiet", b"quiet", b"silent"]
-U_NAMES = [b"foo", b"iterlimx", b"alg:", b"xgap", b"lim:wt", b"q", b"tech:logg", b"lim:*:wt", b"*"]
+U_NAMES = [b"foo", b"iterlimx", b"alg:", b"xgap", b"lim:wt", b"q", b"tech:logg", b"lim:*:wt", b"*",
+           b"{}", b"lim{1}", b"x}", b"{", b"a{{b}}", b"%s%n", b"{0:>9999}"]     # names that look like format strings
 BLANKS = [b" ", b" ", b" ", b"  ", b"\t", b" \t ", b"\n", b"\r", b"\x0b", b"\x0c"]
 NUMS = [b"5", b"-3", b"+12", b"007", b"010", b"0.1", b"2.5", b"-0.125", b".5", b"3.", b"0", b"1e3", b"12345678", b"0x1A", b"-", b"1.2345"]
 WORDS = [b"abc", b"x1", b"path/to.f", b"a=b", b"Z", b"inf", b"nan"]
